@@ -583,6 +583,8 @@ impl World {
         }
 
         let lean_name = opts.get("as").cloned().unwrap_or_else(|| match ty_name {
+            // a method named like a field of its struct (builders): Lean keeps the projection, the method gets `_fn`
+            Some(t) if self.structs.get(t).map_or(false, |fs| fs.iter().any(|(f, _)| f == name)) => format!("{}.{}_fn", t, name),
             Some(t) => format!("{}.{}", t, name),
             None => name.to_string(),
         });
